@@ -462,9 +462,31 @@ func c20prop(ev *evid.Rec) func(rt *rapid.T) {
 			}
 		}
 		last := js(ops[n-1])
-		oldState, err := c20dump(d0)
+		// an account file in the old format (privileges as an array of numbers), dropped into the directory before this
+		// start: the starting server itself rewrites it in the current format, and that rewrite is one more update a crash
+		// can interrupt - the account must survive it with the same login, name, password and privileges
+		legacy := store == "acct" && rapid.IntRange(0, 2).Draw(rt, "legacyAccountFile") == 0
+		if legacy {
+			var la hlref.Access
+			copy(la[:], rapid.SliceOfN(rapid.Byte(), 8, 8).Draw(rt, "legacyAccess"))
+			la = la.Defined() // undefined bits are dropped by the rewrite (C16), so the old and the new form would differ in them
+			acc := la[:]
+			var y strings.Builder
+			y.WriteString("Login: legacy\nName: Legacy Account\nPassword: $2a$04$9P/jgLn1fR9TjSoWL.rKxuN6g.1TSpf2o6Hw.aaRuBwrWIJNwsKkS\nAccess:\n")
+			for _, x := range acc {
+				fmt.Fprintf(&y, "  - %d\n", x)
+			}
+			must(os.WriteFile(filepath.Join(d0, "Users", "legacy.yaml"), []byte(y.String()), 0o644))
+		}
+		dd := filepath.Join(scratch, "dump0")
+		must(copyDir(d0, dd)) // loading the stores may rewrite files (the migration above): look at a copy
+		oldState, err := c20dump(dd)
+		os.RemoveAll(dd)
 		if err != nil {
 			rt.Fatalf("state before the in-flight update does not load: %v", err)
+		}
+		if legacy && !strings.Contains(oldState, `login="legacy"`) {
+			rt.Fatalf("the account file in the old format was not loaded:\n%s", oldState)
 		}
 		dn := filepath.Join(scratch, "dn")
 		must(copyDir(d0, dn))
@@ -510,6 +532,9 @@ func c20prop(ev *evid.Rec) func(rt *rapid.T) {
 			}
 		}
 		desc := fmt.Sprintf("store=%s history=%s", store, opsDesc(ops))
+		if legacy {
+			desc += " (with Users/legacy.yaml in the old format, migrated by the start that makes the last update)"
+		}
 		for j, p := range pts {
 			dj := filepath.Join(scratch, fmt.Sprintf("k%d", j))
 			must(copyDir(d0, dj))
@@ -542,7 +567,7 @@ func c20prop(ev *evid.Rec) func(rt *rapid.T) {
 				rt.Fatalf("%s: %s: after the restart and one more update (%s) the stores do not hold that update applied to what the restart had loaded\n--- expected\n%s--- found\n%s", desc, where, opsDesc([]c20op{fu}), clip(fuState[got]), clip(got2))
 			}
 			nt := first >= 0 && j > first && j <= lastMut
-			ev.Case(evid.Hash(desc, j), nt, "store:"+store, "op:"+ops[n-1].Op, fmt.Sprintf("in-window:%v", nt))
+			ev.Case(evid.Hash(desc, j, legacy), nt, "store:"+store, "op:"+ops[n-1].Op, fmt.Sprintf("in-window:%v", nt), fmt.Sprintf("legacy-account-migration:%v", legacy))
 			os.RemoveAll(dj)
 		}
 		if ev.WantSample() {
